@@ -184,6 +184,14 @@ def gen_history(r, length, m, kind):
         if any(list(o[:-1]) == list(c) and abs(o[-1]) == abs(mk_) and o[-1] != mk_ for o in seq):
             mk_ = abs(mk_)          # -v and +v on identical objectives would be "the same offer" twice: not generated
         seq.append(c + [mk_])
+    # -v and +v on identical objectives are one offer as far as this property can tell (equal violation, equal objectives), but two
+    # different lists for the archive's duplicate test: such twins are not generated, whichever path produced them
+    first = {}
+    for e_ in seq:
+        k_ = (tuple(e_[:-1]), oracles.marker(e_[-1]))
+        if k_ in first and first[k_] != e_[-1]:
+            e_[-1] = first[k_]
+        first.setdefault(k_, e_[-1])
     return seq
 
 
